@@ -15,6 +15,7 @@ HARNESSES = {
     'heter': dict(sources=['src/h_heter.cpp']),
     'filter': dict(sources=['src/h_filter.cpp']),
     'config': dict(sources=['src/h_config.cpp']),
+    'copy': dict(sources=['src/h_copy.cpp']),
     'anyid': dict(sources=['src/h_anyid.cpp']),
     'anydata': dict(sources=['src/h_anydata.cpp', 'src/h_anydata_m1.cpp', 'src/h_anydata_m24.cpp', 'src/h_anydata_m32.cpp', 'src/h_anydata_m64.cpp']),
 }
@@ -98,9 +99,10 @@ prop('C02', 'exploration',
      COMMON_ASSUME + ['policies: std::mutex, SingleThreading, owner-tracking CheckedMutex (re-lock = deadlock), SpinLock'],
      q, t)
 
-q, t = multi_stages([('cbl', 2000, 100000), ('queue', 2000, 100000)])
+q, t = multi_stages([('cbl', 2000, 100000), ('queue', 2000, 100000), ('copy', 2500, 100000)])
 prop('C10', 'exploration',
-     'cbl multi-object histories (pool of <=4 lists; copy/move construct+assign, swap, destroy, churn, dirty placement storage) with nested scripts; '
+     'cbl multi-object histories (pool of <=4 lists; copy/move construct+assign, swap, destroy, churn, dirty placement storage) with nested scripts; the same for EventQueue (queue harness); '
+     'harness copy: pools of EventDispatcher and EventQueue with MixinFilter, HeterCallbackList, HeterEventDispatcher with MixinHeterFilter and HeterEventQueue under the same transfer ops, every live object re-dispatched after each transfer; '
      'non-trivial = a transfer op followed by a mutation of a participant',
      COMMON_ASSUME + ['moved-from sources: only validity is required, the model adopts what the source reports',
                       'transfer ops on a list that is currently being invoked are not generated (unspecified)'],
